@@ -174,6 +174,7 @@ func (st *Stream) produceKVs(ctx context.Context, threadId int) error {
 	st.numProducers.Add(1)
 	defer st.numProducers.Add(-1)
 
+	y.VerifPoint("stream.begin")
 	var txn *Txn
 	if st.readTs > 0 {
 		txn = st.db.NewTransactionAt(st.readTs, false)
